@@ -222,6 +222,15 @@ theorem inverse_singular {A : Mat} {n : ℕ} (hr : A.rows = n + 1) (hc : A.cols 
     rw [this]; simp [hd]
   simp [inverse, hr, hc, this]
 
+/-- the gate in front of the elimination: whenever `Invertible()` is false — i.e. whenever the
+    determinant the library itself computes vanishes — `Inverse` gives the diagnostic, whatever the
+    elimination would do (a rounded pivot is never consulted) -/
+theorem inverse_err_of_not_invertible {A : Mat} (h : invertible A = false) : inverse A = .error .diag := by
+  unfold inverse
+  split
+  · rfl
+  · simp [h]
+
 /-- `Inverse` never leaves the modelled domain and a diagnostic is its only failure -/
 theorem inverse_err_or_ok (A : Mat) : inverse A = .error .diag ∨ ∃ X, inverse A = .ok X := by
   unfold inverse
